@@ -149,6 +149,14 @@ def check_sf(ctx, case):
         meta[data_tag] = buf
     out = must(case, 'selection function call', sf, **meta)
     full = must(case, 'default selection function call', full_sf, **meta)
+    if gen.layout_of(case, 7) in ('F', 'strided', 'negstride'):
+        # both results are kept while the selection functions are called again on other data of the same shape: they must not change
+        other = dict(meta, **{data_tag: np.roll(meta[data_tag], 1, axis=-1)})
+        try:
+            sf(**other)
+            full_sf(**other)
+        except Exception:
+            pass
     n = len(inputs)
     g_list = list(range(gmax)) if guesses is None else [int(v) for v in guesses]
     # (1) shape and slice relation
@@ -212,7 +220,7 @@ def sf_cases(draw, cipher, name):
         words = slice(a, draw(st.integers(a + 1, nwords)), draw(st.sampled_from([None, 1, 2, 3])))
     else:
         words = np.array(draw(st.lists(st.integers(0, nwords - 1), min_size=1, max_size=6)), dtype=draw(st.sampled_from(['uint8', 'int64', 'int32'])))
-    gk = draw(st.sampled_from(['default', 'perm', 'subset', 'range', 'n']))
+    gk = draw(st.sampled_from(['default', 'perm', 'subset', 'range', 'range_step', 'n']))
     if gk == 'default':
         guesses = None
     elif gk == 'perm':
@@ -222,6 +230,9 @@ def sf_cases(draw, cipher, name):
     elif gk == 'range':
         a = draw(st.integers(0, gmax - 2))
         guesses = range(a, draw(st.integers(a + 1, gmax)))
+    elif gk == 'range_step':
+        # ranges with a step, also descending ones
+        guesses = draw(st.sampled_from([range(0, gmax, 2), range(1, gmax, 3), range(gmax - 1, -1, -1), range(gmax - 1, 0, -5), range(0, gmax, gmax // 2)]))
     else:
         guesses = np.array(draw(st.lists(st.integers(0, gmax - 1), min_size=n, max_size=n)), dtype='uint8')   # traces == guesses
     return {'kind': 'sf', 'cipher': cipher, 'class': name, 'key': key, 'inputs': inputs, 'words': words, 'guesses': guesses,
